@@ -31,12 +31,12 @@ Print Assumptions C03_xml_escape_per_char.
    nodes_ok plain_style: texts over XML Char without CR, style dictionaries without colour (italics/bold/underline).
    The strict parser reads the payload as the token list of the abstract, string-free writer (ANY such node list) ... *)
 Theorem C03_dfxp_payload_parse : forall region ns, nodes_ok plain_style ns = true ->
-  content_parse (dfxp_payload (extra_of region) ns) = xbuild (abs_tokens [] (dfxp_atok region) ns) [] [].
+  content_parse (dfxp_payload (extra_of region) ns) = xbuild (abs_tokens [] a_close (dfxp_atok region) ns) [] [].
 Proof. exact dfxp_payload_parse. Qed.
 Print Assumptions C03_dfxp_payload_parse.
 
 Theorem C03_legacy_payload_parse : forall ns, nodes_ok plain_style ns = true ->
-  content_parse (legacy_payload ns) = xbuild (abs_tokens (lit " ") (dfxp_atok false) ns) [] [].
+  content_parse (legacy_payload ns) = xbuild (abs_tokens [] a_close (dfxp_atok false) ns) [] [].
 Proof. exact legacy_payload_parse. Qed.
 Print Assumptions C03_legacy_payload_parse.
 
@@ -71,7 +71,8 @@ Theorem C03_vtt_cue_text_no_arrow : forall ns, is_infix (lit "-->") (vtt_cue_tex
 Proof. exact vtt_cue_text_no_arrow. Qed.
 Print Assumptions C03_vtt_cue_text_no_arrow.
 
-(* ... which the pinned writer did not guarantee (repaired: fix commit "WebVTT writer let --> form across ...") *)
+(* ... which the pinned writer did not guarantee (repaired: fix commit "WebVTT writer let --> form across ...").
+   DEFINITIONAL model of code that no longer exists (vtt_cue_text_prefix); historical record, tied to no code *)
 Theorem C03_vtt_arrow_across_nodes_refuted : exists ns, is_infix (lit "-->") (vtt_cue_text_prefix ns) = true.
 Proof. exact vtt_arrow_across_nodes_refuted. Qed.
 Print Assumptions C03_vtt_arrow_across_nodes_refuted.
@@ -89,27 +90,40 @@ Proof. exact srt_content_no_blank_line. Qed.
 Print Assumptions C03_srt_content_no_blank_line.
 
 Theorem C03_srt_content_authored_lines : forall ns, texts_no 10 ns = true ->
-  norm_lines (srt_content_lines ns) = norm_lines (sp_lines ns).
+  norm_lines (srt_content_lines ns) = norm_lines (node_lines ns).
 Proof. exact srt_content_authored_lines. Qed.
 Print Assumptions C03_srt_content_authored_lines.
 
-(* the reference block grammar reads the document back: one block per caption, in order, with its lines *)
+(* the reference block grammar reads the document back: one block per caption, in order, with its lines.
+   srt_doc_merged = the writer after its merge of consecutive captions with equal timing (srt_merge) *)
 Theorem C03_srt_blocks_roundtrip : forall caps, caps <> [] -> Forall srt_cap_ok caps ->
-  srt_cues (srt_doc caps) = Some (map (fun c => srt_content_lines (snd c)) caps).
+  srt_cues (srt_doc_merged caps) = Some (map (fun c => srt_content_lines (snd c)) caps).
 Proof. exact srt_blocks_roundtrip. Qed.
 Print Assumptions C03_srt_blocks_roundtrip.
 
+(* MODEL MEETS ORACLE (SRT): the whole written document (merge included), read by the reference block grammar,
+   satisfies the harness oracle ok_cues_strict against the authored lines (node_lines) of the merged captions:
+   one cue per (merged) caption, in order, every line equal up to leading/trailing white space, empty lines dropped *)
+Theorem C03_srt_doc_meets_oracle : forall caps, srt_merge caps <> [] -> Forall srt_cap_ok (srt_merge caps) ->
+  exists cues, srt_cues (srt_doc caps) = Some cues /\
+               ok_cues_strict (map (fun c => node_lines (snd c)) (srt_merge caps)) cues = true.
+Proof. exact srt_doc_meets_oracle. Qed.
+Print Assumptions C03_srt_doc_meets_oracle.
+
+(* DEFINITIONAL model of code that no longer exists (the pinned writer before fix 5dc47d2): kept as the record of
+   why the repair was needed, tied to no code *)
 Theorem C03_srt_double_break_refuted : exists ns,
   texts_no 10 ns = true /\ forallb nonblank (split_ch 10 (srt_content_prefix ns)) = false.
 Proof. exact srt_double_break_refuted. Qed.
 Print Assumptions C03_srt_double_break_refuted.
 
-(* ---- MicroDVD (texts without '|') ---- *)
-Theorem C03_mdvd_content_shape : forall ns, texts_no 10 ns = true -> mdvd_content ns = mdvd_text ns ++ [10].
+(* ---- MicroDVD (texts without '|' and without CR / LF: the writer turns a line end inside a text node into '|') ---- *)
+Theorem C03_mdvd_content_shape : forall ns, texts_no 10 ns = true -> texts_no 13 ns = true ->
+  mdvd_content ns = mdvd_text ns ++ [10].
 Proof. exact mdvd_content_shape. Qed.
 Print Assumptions C03_mdvd_content_shape.
 
-Theorem C03_mdvd_text_lines : forall ns, texts_no 124 ns = true ->
+Theorem C03_mdvd_text_lines : forall ns, texts_no 124 ns = true -> texts_no 10 ns = true -> texts_no 13 ns = true ->
   norm_lines (split_ch 124 (mdvd_text ns)) = norm_lines (node_lines ns).
 Proof. exact mdvd_text_lines. Qed.
 Print Assumptions C03_mdvd_text_lines.
@@ -125,6 +139,15 @@ Theorem C03_mdvd_doc_roundtrip : forall caps, Forall mdvd_cap_ok caps ->
 Proof. exact mdvd_doc_roundtrip. Qed.
 Print Assumptions C03_mdvd_doc_roundtrip.
 
+(* MODEL MEETS ORACLE (MicroDVD): the written document, read by the reference line grammar, satisfies the harness
+   oracle against the authored lines; texts without '|' (the one character the format cannot express) *)
+Theorem C03_mdvd_doc_meets_oracle : forall caps, Forall mdvd_cap_ok caps ->
+  (forall c, In c caps -> texts_no 124 (snd c) = true) ->
+  exists cues, mdvd_cues (mdvd_doc caps) = Some cues /\
+               ok_cues_strict (map (fun c => node_lines (snd c)) caps) cues = true.
+Proof. exact mdvd_doc_meets_oracle. Qed.
+Print Assumptions C03_mdvd_doc_meets_oracle.
+
 (* ---- non-vacuity ---- *)
 Example C03_example_escape : content_parse (xml_escape (lit "a<b & ]]> c")) = Some [XText (lit "a<b & ]]> c")].
 Proof. vm_compute. reflexivity. Qed.
@@ -137,7 +160,20 @@ Proof. vm_compute. reflexivity. Qed.
 Example C03_example_srt_hyp : Forall srt_cap_ok ex_caps.
 Proof. repeat constructor; try (vm_compute; reflexivity); vm_compute; discriminate. Qed.
 
-Example C03_example_srt : srt_cues (srt_doc ex_caps) = Some [[lit "1 "; lit "00:00:05,000 --> x"]; [lit "b"]].
+Example C03_example_srt : srt_cues (srt_doc ex_caps) = Some [[lit "1"; lit "00:00:05,000 --> x"]; [lit "b"]].
+Proof. vm_compute. reflexivity. Qed.
+
+(* the merge: two captions with the same timing line become one cue with both lines *)
+Example C03_example_srt_merge :
+  srt_merge [(lit "T", [NText (lit "a")]); (lit "T", [NText (lit "b")]); (lit "U", [NText (lit "c")])] =
+  [(lit "T", [NText (lit "a"); NBreak; NText (lit "b")]); (lit "U", [NText (lit "c")])].
+Proof. vm_compute. reflexivity. Qed.
+
+Example C03_example_mdvd_hyp :
+  Forall mdvd_cap_ok [(lit "{25}{50}", [NBreak; NText (lit " a{1}{2}"); NBreak; NText (lit "b ")])].
+Proof. exact mdvd_cap_ok_example. Qed.
+
+Example C03_example_texts_no_nl : texts_no_nl [NText (lit "a b"); NBreak; NText []] = true.
 Proof. vm_compute. reflexivity. Qed.
 
 Example C03_example_mdvd :
@@ -150,5 +186,5 @@ Example C03_example_payload :
   nodes_ok plain_style ns = true /\ flat_balanced ns = true /\
   content_parse (dfxp_payload [] ns) =
   Some [XText (lit "a & b"); XElem (lit "br") [] []; XText ([10] ++ lit "    ");
-        XElem (lit "span") [(lit "tts:fontStyle", lit "italic")] [XText (lit " <c>")]; XText (lit " d")].
+        XElem (lit "span") [(lit "tts:fontStyle", lit "italic")] [XText (lit " <c> ")]; XText (lit "d")].
 Proof. repeat split; vm_compute; reflexivity. Qed.
